@@ -324,6 +324,14 @@ class RefDevice:
     def _transmit(self, conn, msgs, d, lat):
         if not msgs:
             return
+        if d.get("pre_sep") and len(msgs) > 1:
+            # first message in its own earlier segment, the rest coalesced a little later
+            self._fire("unsolicited_first_separate_segment")
+            conn.send(msgs[0], lat=lat)
+            conn.send(b"".join(msgs[1:]) if self.version == 3 else msgs[1], lat=lat + d.get("gap", 0.01))
+            for m in (msgs[2:] if self.version == 2 else []):
+                conn.send(m, lat=lat + 2 * d.get("gap", 0.01))
+            return
         if self.version == 3 or d.get("v2_stream"):
             total = b"".join(msgs)
             if len(msgs) > 1 and not d.get("cuts"):
